@@ -32,7 +32,9 @@ fn ws_runs(thorough: bool) -> Vec<String> {
     v
 }
 
-const CORES: [&str; 11] = ["", "a", "é", "{", "}", "%", "\"", "'", "a{", "}%", "%}"];
+// U+00A0 (no-break space) is *text*: the grammar's WHITESPACE and the statement's list are space, tab and
+// line breaks, so a trim marker touching it must leave it alone (catches `str::trim*`-style trimming).
+const CORES: [&str; 13] = ["", "a", "é", "{", "}", "%", "\"", "'", "a{", "}%", "%}", "\u{a0}", "\u{a0}b\u{a0}"];
 
 fn is_ws(c: char) -> bool {
     WS.contains(&c)
@@ -90,7 +92,7 @@ fn segments(report: &Report, thorough: bool) {
     let c = CORES.len() as u64;
     // template: T0 M1 T1 where T = L core R; M1 = output | tag with 2 sides, inner spaces
     // radices: R0, core1, L1, kind(2), sideL, sideR, inner(3), core0, L0, R1
-    let rad = [r, c, r, 2, 2, 2, 3, 3, 3, 3];
+    let rad = [r, c, r, 2, 2, 2, 3, 4, 3, 3];
     let total = product(&rad);
     let name = "trim/one-markup".to_string();
     let nontriv = AtomicU64::new(0);
@@ -98,7 +100,7 @@ fn segments(report: &Report, thorough: bool) {
     let build = |i: u64| -> Option<(String, String)> {
         let d = decode(i, &rad);
         let few = ["", " ", "\n"];
-        let t0 = format!("{}{}{}", few[d[8] as usize], ["x", "é", "}"][d[7] as usize], runs[d[0] as usize]);
+        let t0 = format!("{}{}{}", few[d[8] as usize], ["x", "é", "}", "x\u{a0}"][d[7] as usize], runs[d[0] as usize]);
         let t1 = format!("{}{}{}", runs[d[2] as usize], CORES[d[1] as usize], few[d[9] as usize]);
         if spells_delim(&t0) || spells_delim(&t1) {
             return None;
@@ -246,7 +248,7 @@ fn markup_free(report: &Report, k: u32) {
 fn raw_blocks(report: &Report, k: u32) {
     let parser = cfgs::parser(Config::Stdlib);
     let items = [
-        "a", " ", "\n", "\t", "é", "{", "}", "%", "{{ x }}", "{{ x", "x }}", "{% if y %}", "{% endif %}", "{% if", "%}", "{% raw %}", "{% endraw x %}", "{%- assign q = 1 -%}", "{{- x -}}", "{% comment %}", "{% endcomment %}", "{{ 'a' | upcase }}", "{{ !! }}", "'", "\"",
+        "a", " ", "\n", "\t", "é", "{", "}", "%", "{{ x }}", "{{ x", "x }}", "{% if y %}", "{% endif %}", "{% if", "%}", "{% raw %}", "{% endraw x %}", "{%- assign q = 1 -%}", "{{- x -}}", "{% comment %}", "{% endcomment %}", "{{ 'a' | upcase }}", "{{ !! }}", "'", "\"", "\u{a0}",
     ];
     // radices: body sequence, open side r trim, close side l trim
     let seqs = seq_count(items.len() as u64, k);
